@@ -445,8 +445,8 @@ def gen_hist(rng, cat):
 
     def pack():
         i = rng.randrange(len(files))
-        g = rng.choice(["", "", "g/", "g/h/", "data dir/"])
-        t = fresh(g) + rng.choice(["", ".bin", " x.dat"])
+        g = rng.choice(["", "", "g/", "g/h/", "data.dir/"])
+        t = fresh(g) + rng.choice(["", ".bin", "_x~.dat"])
         ops.append(["pack", i, t, rng.random() < 0.2])
         ds[t] = i
 
